@@ -78,8 +78,6 @@ def real_outcome(resp):
     if kind == "exception":
         msg = unhex(rest.split(" ")[1])
         cls, is_type = classify_msg(msg)
-        if cls == "not-function" or not msg.startswith("Expected `Function`"):
-            pass
         return cls, is_type, msg
     if kind == "ticklimit":
         return "timeout", False, ""
@@ -127,7 +125,7 @@ def run(ctx):
         progs.append((src, None))
         for k, v in info["features"].items():
             feats[k] = feats.get(k, 0) + v
-    requested = {}
+    requested = {}      # mutants actually produced per kind
     for kind in TG.MUTATIONS:
         got, tries = 0, 0
         while got < per_mut and tries < per_mut * 8:
